@@ -138,6 +138,8 @@ def truth(it, v):
         return True
     if isinstance(v, (BoundMethod, IFunc, ModelFn, Opaque, ExcVal)):
         return True
+    if type(v).__name__ in ("Modelled", "Coro", "Awaitable", "FileHandle"):
+        return True
     if isinstance(v, LazyMap):
         return v.src.len_t > 0
     if isinstance(v, SymList):
@@ -691,7 +693,14 @@ def make_set(it, items):
 
 
 def await_value(it, v, node=None):
-    # coroutines are executed like functions: the call already ran; await yields its value
+    from .values import Awaitable, Coro
+
+    if isinstance(v, Coro):
+        return it.run_coro(v, node)
+    if isinstance(v, Awaitable):
+        return v.on_await(it)
+    if hasattr(v, "_pyvc_await"):
+        return v._pyvc_await(it)
     return v
 
 
@@ -948,6 +957,8 @@ def getattr_(it, obj, name, node=None):
             if type(v).__name__ == "LazyField":
                 v = v.fn(it)
                 obj.fields[name] = v
+            elif type(v).__name__ == "VolatileField":
+                return v.read(it)
             return v
         if name == "__dict__":
             return obj.fields
@@ -962,6 +973,15 @@ def getattr_(it, obj, name, node=None):
         if obj.pycls is None:
             it.raise_(AttributeError, name, node=node)
         return class_attr(it, obj, obj.pycls, name, node)
+    from .values import Modelled
+
+    if isinstance(obj, Modelled):
+        if name in obj.attrs:
+            v = obj.attrs[name]
+            return v
+        raise Unsupported(f"attribute {name} of modelled object {obj.name}")
+    if hasattr(obj, "_pyvc_attr"):
+        return obj._pyvc_attr(it, name)
     if isinstance(obj, SuperProxy):
         found = it.class_lookup(type_of(obj.self_val), name, after=obj.defcls)
         if found is None:
@@ -1048,6 +1068,11 @@ def setattr_(it, obj, name, v, node=None):
         return
     if obj is None:
         it.raise_(AttributeError, f"'NoneType' object has no attribute '{name}'", node=node)
+    from .values import Modelled
+
+    if isinstance(obj, Modelled):
+        obj.attrs[name] = v
+        return
     if isinstance(obj, (SV, MapRef, SeqVal, SeqRef)):
         it.raise_(AttributeError, f"object has no attribute '{name}'", node=node)
     raise Unsupported(f"attribute store on concrete {type(obj).__name__}.{name}")
